@@ -423,6 +423,7 @@ class Executor:
                 self.by_method.setdefault(meth, []).append(f)
         self.trace = None
         self.fn_stack = []
+        self.binop_hooks = []
         self.harvested = 0         # obligations[:harvested] have been turned into solver queries by the check
         ALL_EXECUTORS.append(self)
         self.cuts = {}             # (fn name, block) -> handler(ex, st, fr, nvisit); may edit the state or raise CutReached
@@ -778,6 +779,10 @@ class Executor:
 
     # ---------------------------------------------------------- arithmetic
     def binop(self, op, a, b):
+        for h in self.binop_hooks:
+            r = h(op, a, b)
+            if r is not None:
+                return r
         if isinstance(a, BV) and isinstance(b, BV):
             return self.bv_binop(op, a, b)
         if isinstance(a, (bool, z3.BoolRef)) and isinstance(b, (bool, z3.BoolRef)):
